@@ -553,17 +553,68 @@ def prior_session(fl, seed):
     run_one(ep.client.readAsync(2, 2), ep.csock)
     run_one(ep.client.closeAsync(), ep.csock)
     run_one(ep.server.readAsync(1, 1), ep.ssock)
-    return ep.client.session, cache
+    return ep, ep.client.session, cache
 
 
 def make_case_endpoints(fl, seed):
     sess = cache = None
+    prior = None
     if fl.get('resume'):
-        sess, cache = prior_session(fl, seed + 7)
+        ep1, sess, cache = prior_session(fl, seed + 7)
+        prior = (ep1, sess, cache)
     det_install(seed)
     ep = Endpoints(fl)
+    ep.prior = prior
     cg, sg = ep.hs_gens(session=sess, cache=cache)
     return ep, cg, sg
+
+
+def shared_session_followup(fl, prior, side, seed):
+    """After something happened on a RESUMED connection of the endpoint under test (`side`): is the
+    session still resumable on the object that side would resume from?  Returns dict:
+      first_view  : resumable flag seen through the FIRST connection's .session (same session)
+      lookup      : server: SessionCache lookup by session ID gives a usable session (None: no ID);
+                    client: the session object handed to the handshake is still valid()
+      resumed_id  : a follow-up connection offering the session (by ID only when the side under
+                    test is the server and the session has an ID) was resumed (None: not run)
+      resumed_any : a follow-up offering everything the client has (tickets / PSK included) was resumed"""
+    ep1, sess, cache = prior
+    out = dict(first_view=None, lookup=None, resumed_id=None, resumed_any=None)
+    a1 = ep1.client if side == 'client' else ep1.server
+    out['first_view'] = bool(a1.session.resumable) if a1.session is not None else None
+    sid = bytes(sess.sessionID) if sess.sessionID else b''
+    if side == 'server':
+        if sid:
+            try:
+                cache[bytearray(sid)]
+                out['lookup'] = True
+            except KeyError:
+                out['lookup'] = False
+    else:
+        out['lookup'] = bool(sess.valid())
+
+    def attempt(offer):
+        det_install(seed + 99)
+        ep3 = Endpoints(fl)
+        cg, sg = ep3.hs_gens(session=offer, cache=cache)
+        ra, rb = run_two(cg, sg, ep3.csock, ep3.ssock)
+        if ra[0] != 'ok' or rb[0] != 'ok':
+            return ('failed', classify(ra) if ra[0] == 'exc' else ra[0], classify(rb) if rb[0] == 'exc' else rb[0])
+        return bool(ep3.client.resumed)
+    if side == 'server':
+        # the peer does not play by the rules: it offers the session again whatever happened
+        if sid and fl['ver'] != 'tls13':
+            offer = sess._clone()
+            offer.resumable = True
+            offer.tickets = None
+            offer.tls_1_0_tickets = None
+            out['resumed_id'] = attempt(offer)
+        offer = sess._clone()
+        offer.resumable = True
+        out['resumed_any'] = attempt(offer)
+    else:
+        out['resumed_id'] = attempt(sess)      # the client's own object: must not be offered if invalid
+    return out
 
 
 _REF = {}
@@ -850,6 +901,7 @@ def run_data_case(case, blocking=False):
     A.ignoreAbruptClose = case['ign']
     A.closeSocket = case['csock']
     plog = SendLog(P)
+    # (for resumption flavours ep.prior holds the first connection, the client session and the cache)
     tls13 = fl['ver'] == 'tls13'
     ra, rb = run_two(ag, pg, asock, psock)
     if ra[0] != 'ok' or rb[0] != 'ok':
@@ -1003,8 +1055,45 @@ def run_data_case(case, blocking=False):
         init_lit((case['ign'], case['csock']), tls13, split, case.get('recsz', 16384)), ';'.join(events),
         ';'.join(expected), 'true' if A.closed else 'false', sess_lit(A),
         'None' if wire is None else '(Some [%s])' % ';'.join(wire_lit(x) for x in wire))
-    return dict(lit=lit, viol=viol, outs=outs, case=case, blocked=any(o == 'OBlocked' for o in outs),
-                final=(A.closed, sess_lit(A)))
+    res = dict(lit=lit, viol=viol, outs=outs, case=case, blocked=any(o == 'OBlocked' for o in outs),
+               final=(A.closed, sess_lit(A)))
+    # ---- the connection was a RESUMED one: what about the session object it shares?
+    if getattr(ep, 'prior', None) is not None and case.get('world') and not blocking:
+        fu = shared_session_followup(fl, ep.prior, side, case['seed'])
+        res['followup'] = fu
+        shared = fl['ver'] != 'tls13'       # TLS 1.3 builds a fresh Session object per connection
+        wev = []
+        for e in events:
+            if e.startswith('UHs (HSetSess'):
+                wev.append('WAdopt 1 0' if shared else 'WNewSession 1')
+            else:
+                wev.append('WConn 1 (%s)' % e)
+        wev.append('WLookup 0')
+        lk = fu['lookup']
+        if fu['resumed_id'] in (True, False) and lk is None:
+            lk = fu['resumed_id']
+        optb = lambda b: 'None' if b is None else '(Some %s)' % ('true' if b else 'false')
+        res['wlit'] = ('(mkw [mkwc (init false true false false 16384) (Some 0%%nat); mkwc %s None] [true], [%s], [%s], %s, %s, %s, %s)'
+                       % (init_lit((case['ign'], case['csock']), tls13, split, case.get('recsz', 16384)), ';'.join(wev),
+                          ';'.join(expected), 'true' if A.closed else 'false', sess_lit(A), optb(fu['first_view']), optb(lk)))
+        failed = sess_obj is not None and not sess_obj.resumable     # _shutdown(False) ran on this connection
+        wsite = '%s:%s' % (fl['ver'], side)
+        if shared and failed:
+            if fu['lookup'] is True:
+                viol.append(('session-resumable-after-failure-on-resumed-connection:lookup:' + wsite,
+                             'a fatal failure on a resumed connection switched off only connection.session.resumable; '
+                             'the object the %s would resume from is still usable (%s)'
+                             % (side, 'SessionCache lookup by session ID succeeds' if side == 'server' else 'Session.valid()')))
+            if fu['resumed_id'] is True:
+                viol.append(('session-resumable-after-failure-on-resumed-connection:resumed-again:' + wsite,
+                             'after a fatal failure on a resumed connection a follow-up connection offering the same '
+                             'session %swas resumed' % ('ID ' if side == 'server' else '')))
+            if fu['first_view'] is True:
+                viol.append(('session-resumable-after-failure-on-resumed-connection:first-connection-view:' + wsite,
+                             'the session seen through the first connection is still resumable'))
+        if isinstance(fu['resumed_id'], tuple) or isinstance(fu['resumed_any'], tuple):
+            viol.append(('followup-handshake-failed:' + wsite, 'follow-up handshake failed: %r' % (fu,)))
+    return res
 
 
 # ------------------------------------------------------------------------------------------
